@@ -39,6 +39,11 @@ var _ logiter = (*streamIter)(nil)
 
 // Next returns true, if there is element and fills t.
 func (i *streamIter) Next(r *logstorage.Record) (ok bool) {
+	if i.err != nil {
+		// Stream is broken: keep the error, do not try to read further.
+		return false
+	}
+
 	// Reset record.
 	*r = logstorage.Record{
 		Attrs:         otelstorage.Attrs(pcommon.NewMap()),
